@@ -91,4 +91,190 @@ theorem colsRaise_ok (tb : Tables) : ∀ cols : List Col, colsRaise tb cols = no
         unfold getType at hg
         split at hg <;> simp_all
 
+/-! ### after the repairs: every parser-shaped tree is clean -/
+
+theorem kindOf_ne_list (tb : Tables) (h : tb.tupleIsList = false) (tag : Tag) : kindOf tb tag ≠ .list := by
+  cases tag with
+  | tuple => simp [kindOf, h]
+  | ident n f al =>
+    cases al with
+    | none => simp only [kindOf]; split <;> simp
+    | some a => simp [kindOf]
+  | _ => simp [kindOf]
+
+theorem kindAt_ne_list (tb : Tables) (h : tb.tupleIsList = false) (kids : List T) (i : Nat) :
+    kindAt tb kids i ≠ .list := by
+  unfold kindAt
+  cases kids[i]? with
+  | none => simp
+  | some k => exact kindOf_ne_list tb h k.tag
+
+theorem callMethod_none (tb : Tables) (k r : Kind) (m : String) (h1 : k ≠ .list) (h2 : k ≠ .text) :
+    callMethod tb k r m = none := by
+  cases k <;> simp_all [callMethod]
+
+theorem okExc_getAlias (al : Al) : okExc (getAlias al) = true := by
+  cases al with
+  | none => rfl
+  | some n => by_cases hn : n > 1 <;> simp [getAlias, hn, okExc, Exc.caught]
+
+theorem okExc_tableName (t : TblName) : okExc (tableName t) = true := by
+  cases t with
+  | notIdent => rfl
+  | ident n => by_cases hn : n > 2 <;> simp [tableName, hn, okExc, Exc.caught]
+
+theorem okExc_modeRaise (m : Mode) : okExc (modeRaise m) = true := by
+  cases m <;> simp [modeRaise, okExc, Exc.caught]
+
+theorem okExc_orElse_of (a b : Option Exc) (ha : okExc a = true) (hb : okExc b = true) : okExc (orElse a b) = true := by
+  cases a with
+  | none => simpa [orElse] using hb
+  | some e => simpa [orElse] using ha
+
+theorem okExc_colsRaise (tb : Tables) (cs : List Col) : okExc (colsRaise tb cs) = true := by
+  rcases colsRaise_ok tb cs with h | h <;> simp [h, okExc, Exc.caught]
+
+theorem okExc_joinType (i : Bool) (jt : String) : okExc (joinTypeRaise i jt) = true := by
+  unfold joinTypeRaise; split <;> simp [okExc, Exc.caught]
+
+theorem okExc_notImpl : okExc (some .notImpl) = true := rfl
+theorem okExc_none : okExc none = true := rfl
+
+/-- closes the goals `okExc (<local check>) = true` that need no case analysis -/
+macro "ok_fin" : tactic => `(tactic| (try dsimp only) <;> first
+  | rfl
+  | exact okExc_tableName _
+  | exact okExc_getAlias _
+  | exact okExc_modeRaise _
+  | exact okExc_joinType _ _
+  | exact okExc_colsRaise _ _
+  | exact okExc_orElse_of _ _ (okExc_modeRaise _) (okExc_getAlias _)
+  | exact okExc_orElse_of _ _ (okExc_colsRaise _ _) (okExc_tableName _)
+  | (split <;> first | rfl | exact okExc_tableName _ | exact okExc_getAlias _ | exact okExc_joinType _ _))
+
+/-- the local checks of a parser-shaped node raise only caught classes once Tuples are sqlalchemy tuples and
+`RenderError` is a caught class -/
+theorem local_ok (tb : Tables) (h1 : tb.tupleIsList = false) (h2 : tb.dupExc.caught = true)
+    (c : Ctx) (tag : Tag) (kids : List T) (hs : shapedNode tb c tag kids = true) :
+    okExc (pre tb c tag kids) = true ∧ okExc (post tb c tag kids) = true := by
+  have hcm : ∀ r m, kindAt tb kids 0 ≠ .text → callMethod tb (kindAt tb kids 0) r m = none :=
+    fun r m ht => callMethod_none tb _ r m (kindAt_ne_list tb h1 kids 0) ht
+  constructor
+  · unfold pre
+    by_cases hst : isStructural tag = true
+    · rw [if_pos hst]; rfl
+    · rw [if_neg hst]
+      cases c with
+      | skip => rfl
+      | stmt =>
+        cases tag with
+        | insert tbl cols p h =>
+          cases cols with
+          | none => exact okExc_orElse_of _ _ (okExc_tableName _) rfl
+          | some cs =>
+            refine okExc_orElse_of _ _ (okExc_tableName _) ?_
+            show okExc (if firstDup [] cs then some tb.dupExc else none) = true
+            split
+            · simpa [okExc] using h2
+            · rfl
+        | update tbl hfs => cases hfs <;> first | rfl | exact okExc_tableName _
+        | createTable tbl cols => cases cols <;> ok_fin
+        | dropTables n tbl => show okExc (if n != 1 then some .notImpl else tableName tbl) = true; ok_fin
+        | _ => ok_fin
+      | sel => cases tag <;> first | rfl | (exact absurd rfl hst) | (simp [shapedNode] at hs)
+      | expr =>
+        cases tag with
+        | param h => cases h <;> rfl
+        | _ => ok_fin
+      | table => cases tag <;> ok_fin
+      | joinL => cases tag <;> ok_fin
+      | from_ =>
+        cases tag with
+        | nativeQuery al =>
+          cases al with
+          | none => rfl
+          | some n => cases n with
+            | zero => simp [shapedNode] at hs
+            | succ k => rfl
+        | _ => ok_fin
+      | cte =>
+        cases tag with
+        | cte h n => cases h <;> rfl
+        | _ => rfl
+  · unfold post
+    cases c with
+    | skip => rfl
+    | stmt => cases tag <;> ok_fin
+    | sel => cases tag <;> ok_fin
+    | table => cases tag <;> ok_fin
+    | joinL => cases tag <;> ok_fin
+    | from_ => cases tag <;> ok_fin
+    | cte => cases tag <;> ok_fin
+    | expr =>
+      cases tag with
+      | func d hf al =>
+        refine okExc_orElse_of _ _ ?_ (okExc_getAlias _)
+        have hx := hs
+        simp only [shapedNode, Bool.not_eq_true'] at hx
+        rw [hx]; rfl
+      | binop op al =>
+        have ht : kindAt tb kids 0 ≠ .text := by simpa [shapedNode] using hs
+        refine okExc_orElse_of _ _ ?_ (okExc_orElse_of _ _ ?_ (okExc_getAlias _))
+        · split <;> rfl
+        · cases tb.methods.lookup (lower op) with
+          | some m => simp [hcm _ _ ht, okExc]
+          | none => simp only []; split
+                    · rfl
+                    · simp [hcm _ _ ht, okExc]
+      | unop op al =>
+        have ht : kindAt tb kids 0 ≠ .text := by simpa [shapedNode] using hs
+        show okExc (match tb.opmap.lookup (upper op) with
+          | none => some .notImpl
+          | some m => orElse (callMethod tb (kindAt tb kids 0) .col m) (getAlias al)) = true
+        cases tb.opmap.lookup (upper op) with
+        | none => rfl
+        | some m => simp only [hcm _ _ ht]; exact okExc_orElse_of _ _ rfl (okExc_getAlias _)
+      | cast ty al =>
+        refine okExc_orElse_of _ _ ?_ (okExc_getAlias _)
+        unfold getType; split <;> rfl
+      | _ => ok_fin
+
+mutual
+/-- with Tuples rendered as sqlalchemy tuples and `RenderError` a caught class, EVERY parser-shaped tree is clean -/
+theorem shaped_clean (tb : Tables) (w : Bool) (h1 : tb.tupleIsList = false) (h2 : tb.dupExc.caught = true) :
+    ∀ (c : Ctx) (t : T), shaped tb w c t = true → clean tb w c t = true
+  | c, .mk tag kids => by
+    intro h
+    unfold shaped at h
+    unfold clean
+    by_cases hs : c = .skip
+    · simp [hs]
+    · simp only [hs, if_false, Bool.and_eq_true] at h ⊢
+      have hl := local_ok tb h1 h2 c tag kids h.1
+      cases hp : pre tb c tag kids with
+      | some e => simpa [hp, okExc] using hl.1
+      | none =>
+        simp only [Bool.and_eq_true]
+        exact ⟨shaped_cleanL tb w h1 h2 c tag 0 kids h.2, hl.2⟩
+theorem shaped_cleanL (tb : Tables) (w : Bool) (h1 : tb.tupleIsList = false) (h2 : tb.dupExc.caught = true) :
+    ∀ (c : Ctx) (tag : Tag) (i : Nat) (ks : List T), shapedL tb w c tag i ks = true → cleanL tb w c tag i ks = true
+  | c, tag, i, [] => by intro _; rfl
+  | c, tag, i, k :: ks => by
+    intro h
+    unfold shapedL at h
+    unfold cleanL
+    simp only [Bool.and_eq_true] at h ⊢
+    exact ⟨shaped_clean tb w h1 h2 _ k h.1, shaped_cleanL tb w h1 h2 c tag (i + 1) ks h.2⟩
+end
+
+/-! ### the repaired postgres scanner -/
+
+theorem stripOutsideAux_no_backtick :
+    ∀ (l : List Char) (a b e : Bool), (∀ c ∈ l, c ≠ '`') → stripOutsideAux a b e l = l
+  | [], a, b, e, _ => by cases a <;> cases e <;> rfl
+  | c :: rest, a, b, e, h => by
+    have hc : (c == '`') = false := by simpa using h c (by simp)
+    have ih := fun a b e => stripOutsideAux_no_backtick rest a b e (fun x hx => h x (by simp [hx]))
+    cases a <;> cases e <;> simp [stripOutsideAux, hc, ih]
+
 end MindsVerif.Fallback
